@@ -1,5 +1,11 @@
 (** WP16 / property C16, last sentence: "--no-database behaves as an empty
-    recipe book".  *)
+    recipe book".
+
+    Since fix F24 --no-database makes the book the NULL DEVICE [dev_null] (which
+    [open_file] opens as an empty readable file in every world, whatever the
+    world's file system says), and an EMPTY file name is a file that cannot be
+    opened (it used to stand for "nothing to read"): [empty_log_name_fails],
+    [empty_book_name_fails] at the end of this file. *)
 From Coq Require Import Lia ZifyBool.
 From HP Require Import Base.Bytes Base.Utf8 Base.Num Model.Scanner Model.Parser Model.Elements Model.Resolver
   Model.Dates Model.Tree Model.Writer Model.Reporters Model.Cli.
@@ -49,7 +55,7 @@ Lemma load_db_source : forall w i fdb nodb,
   | inr op =>
       match load_config w i with
       | inl e => inl e
-      | inr cfg => inr (set_op_db op (if nodb then [] else pick_string fdb (i_e_db i) (ce_db cfg) default_db))
+      | inr cfg => inr (set_op_db op (if nodb then dev_null else pick_string fdb (i_e_db i) (ce_db cfg) default_db))
       end
   end.
 Proof.
@@ -65,13 +71,13 @@ Proof.
   - destruct (parse_date toks s) as [c|]; [|reflexivity].
     destruct (pick_period w (time_of_civil c) toks (i_g_begin i) (i_l_begin i)) as [e|bt]; [reflexivity|].
     destruct (pick_period w (time_of_civil c) toks (i_g_end i) (i_l_end i)) as [e|et]; reflexivity.
-  - destruct (pick_period w (or_default (ce_now cfg) (w_clock w)) toks (i_g_begin i) (i_l_begin i)) as [e|bt]; [reflexivity|].
-    destruct (pick_period w (or_default (ce_now cfg) (w_clock w)) toks (i_g_end i) (i_l_end i)) as [e|et]; reflexivity.
+  - destruct (pick_period w (time_of_civil (civ (or_default (ce_now cfg) (w_clock w)))) toks (i_g_begin i) (i_l_begin i)) as [e|bt]; [reflexivity|].
+    destruct (pick_period w (time_of_civil (civ (or_default (ce_now cfg) (w_clock w)))) toks (i_g_end i) (i_l_end i)) as [e|et]; reflexivity.
 Qed.
 
 Lemma load_no_database : forall w i,
   load w (with_no_database i) =
-  match load w (set_db_source i None true) with inl e => inl e | inr op => inr (set_op_db op []) end.
+  match load w (set_db_source i None true) with inl e => inl e | inr op => inr (set_op_db op dev_null) end.
 Proof.
   intros w i. unfold with_no_database. rewrite load_db_source.
   destruct (load w (set_db_source i None true)) as [e|op] eqn:El; [reflexivity|].
@@ -92,33 +98,35 @@ Proof.
   - rewrite pick_string_spec. reflexivity.
 Qed.
 
-(** * The empty name and an empty file open to the same thing *)
+(** * The null device and an empty file open to the same thing *)
 
 Lemma open_all_cons : forall w p ps o,
   open_file w p = Some o -> open_all w (p :: ps) = option_map (cons o) (open_all w ps).
 Proof. intros w p ps o H. cbn [open_all]. rewrite H. reflexivity. Qed.
 
-Lemma open_file_nil : forall w, open_file w [] = Some ONone.
+(** the null device opens as an empty readable file, in every world *)
+Lemma open_file_dev_null : forall w, open_file w dev_null = Some (OData [] NoFault).
+Proof. reflexivity. Qed.
+
+(** the empty name does not open, in any world (fix F24) *)
+Lemma open_file_nil : forall w, open_file w [] = None.
 Proof. reflexivity. Qed.
 
 Lemma open_file_empty_file : forall w p,
   p <> [] -> lookup p (w_fs w) = Some (FFile []) -> lookup p (w_read_fault w) = None ->
   open_file w p = Some (OData [] NoFault).
 Proof.
-  intros w p Hp Hf Hr. unfold open_file, lookup_fs. destruct p as [|c r]; [congruence|]. rewrite Hf, Hr. reflexivity.
+  intros w p Hp Hf Hr. unfold open_file, lookup_fs. destruct (beq p dev_null); [reflexivity|].
+  destruct p as [|c r]; [congruence|]. rewrite Hf, Hr. reflexivity.
 Qed.
 
 Section SameWorld.
   Context (NM : Num).
   Variables (w : world) (op : options) (p : bytes).
-  Hypothesis Hdb : op_db op = [].
+  Hypothesis Hdb : op_db op = dev_null.
   Hypothesis Hopen : open_file w p = Some (OData [] NoFault).
 
-  Lemma parse_opened_empty : forall S (cb : S -> event NM -> S * bool * option cerr) s,
-    parse_opened NM cb (OData [] NoFault) s = parse_opened NM cb ONone s.
-  Proof. reflexivity. Qed.
-
-  Lemma resolved_db_empty : resolved_db NM w (set_op_db op p) (OData [] NoFault) = resolved_db NM w op ONone.
+  Lemma resolved_db_empty : forall o, resolved_db NM w (set_op_db op p) o = resolved_db NM w op o.
   Proof. reflexivity. Qed.
 
   Lemma run_db_log_nodb : forall mk bt et,
@@ -126,7 +134,7 @@ Section SameWorld.
   Proof.
     intros mk bt et. unfold run_db_log. rewrite Hdb.
     cbn [set_op_db op_db op_log op_fmt].
-    rewrite (open_all_cons w p [op_log op] _ Hopen), (open_all_cons w [] [op_log op] _ (open_file_nil w)).
+    rewrite (open_all_cons w p [op_log op] _ Hopen), (open_all_cons w dev_null [op_log op] _ (open_file_dev_null w)).
     destruct (open_all w [op_log op]) as [[|olog [|o2 r]]|]; cbn [option_map]; try reflexivity.
   Qed.
 
@@ -137,21 +145,21 @@ Section SameWorld.
     run_element_total NM w (set_op_db op p) x desc = run_element_total NM w op x desc.
   Proof.
     intros x desc. unfold run_element_total. rewrite Hdb. cbn [set_op_db op_db].
-    rewrite (open_all_cons w p [] _ Hopen), (open_all_cons w [] [] _ (open_file_nil w)).
+    rewrite (open_all_cons w p [] _ Hopen), (open_all_cons w dev_null [] _ (open_file_dev_null w)).
     reflexivity.
   Qed.
 
   Lemma run_csv_db_nodb : run_csv_db NM w (set_op_db op p) = run_csv_db NM w op.
   Proof.
     unfold run_csv_db. rewrite Hdb. cbn [set_op_db op_db].
-    rewrite (open_all_cons w p [] _ Hopen), (open_all_cons w [] [] _ (open_file_nil w)).
+    rewrite (open_all_cons w p [] _ Hopen), (open_all_cons w dev_null [] _ (open_file_dev_null w)).
     reflexivity.
   Qed.
 
   Lemma run_csv_db_resolved_nodb : run_csv_db_resolved NM w (set_op_db op p) = run_csv_db_resolved NM w op.
   Proof.
     unfold run_csv_db_resolved. rewrite Hdb. cbn [set_op_db op_db].
-    rewrite (open_all_cons w p [] _ Hopen), (open_all_cons w [] [] _ (open_file_nil w)).
+    rewrite (open_all_cons w p [] _ Hopen), (open_all_cons w dev_null [] _ (open_file_dev_null w)).
     reflexivity.
   Qed.
 End SameWorld.
@@ -170,8 +178,8 @@ Proof.
   change (i_cmd (with_no_database i)) with (i_cmd i). change (i_cmd (with_db_flag i p)) with (i_cmd i).
   change (i_desc (with_no_database i)) with (i_desc i). change (i_desc (with_db_flag i p)) with (i_desc i).
   change (i_silent (with_no_database i)) with (i_silent i). change (i_silent (with_db_flag i p)) with (i_silent i).
-  set (op := set_op_db op0 []).
-  assert (Hdb : op_db op = []) by reflexivity.
+  set (op := set_op_db op0 dev_null).
+  assert (Hdb : op_db op = dev_null) by reflexivity.
   change (set_op_db op0 p) with (set_op_db op p).
   change (op_rc (set_op_db op p)) with (op_rc op).
   change (op_begin (set_op_db op p)) with (op_begin op).
@@ -219,6 +227,7 @@ Qed.
 Lemma open_file_frame : forall p w w' q, agree_off p w w' -> q <> p -> open_file w' q = open_file w q.
 Proof.
   intros p w w' q (_ & H) Hq. destruct (H q Hq) as (Hf & Hr). unfold open_file, lookup_fs.
+  destruct (beq q dev_null); [reflexivity|].
   destruct q as [|c r]; [reflexivity|]. rewrite Hf, Hr. reflexivity.
 Qed.
 
@@ -284,15 +293,14 @@ Section Frame.
     rewrite open_all_frame; [reflexivity|]. intros q [<-|[]]; assumption.
   Qed.
 
-  (** stats opens the log, and the book only when its name is not empty *)
+  (** stats opens the log and the book (the null device under --no-database, which opens alike in all worlds) *)
   Lemma run_stats_frame : forall op,
     open_file w' (op_log op) = open_file w (op_log op) ->
-    op_db op = [] \/ open_file w' (op_db op) = open_file w (op_db op) ->
+    open_file w' (op_db op) = open_file w (op_db op) ->
     run_stats NM w' op = run_stats NM w op.
   Proof.
     intros op H2 H1. destruct Hs as (_ & _ & _ & Hor & Hsink).
-    unfold run_stats, new_writer. rewrite Hsink, H2.
-    destruct H1 as [H1|H1]; [rewrite H1|rewrite H1]; reflexivity.
+    unfold run_stats, new_writer. rewrite Hsink, H2, H1. reflexivity.
   Qed.
 End Frame.
 
@@ -306,7 +314,7 @@ Definition fresh_for (w : world) (i : invocation) (p : bytes) : Prop :=
 
 Theorem run_frame : forall NM p w w' i,
   agree_off p w w' -> fresh_for w i p ->
-  (forall op, load w i = inr op -> op_db op = [] \/ p <> op_db op) ->
+  (forall op, load w i = inr op -> op_db op = dev_null \/ p <> op_db op) ->
   run NM w' i = run NM w i.
 Proof.
   intros NM p w w' i Ha (Hcfg & Hlog & Hlint) Hdb. pose proof Ha as (Hs & Hoff).
@@ -330,7 +338,7 @@ Proof.
   - apply run_log_frame; assumption.
   - apply run_csv_db_frame; assumption.
   - apply run_csv_db_resolved_frame; assumption.
-  - apply run_stats_frame; try assumption. right. assumption.
+  - apply run_stats_frame; assumption.
   - pose proof Hs as (_ & Htz & _). rewrite (time_from_string_frame w w') by assumption.
     destruct (time_from_string w (op_now op) (rc_date (op_rc op)) arg) as [e|t]; [reflexivity|].
     apply run_db_log_frame; assumption.
@@ -371,7 +379,7 @@ Qed.
 
 (** * What "the empty recipe book" is *)
 
-(** parsing the empty file (or no file at all) gives no events ... *)
+(** parsing the empty file (what the null device opens as) gives no events ... *)
 Lemma events_empty : forall NM, events NM [] = [].
 Proof. reflexivity. Qed.
 
@@ -380,7 +388,7 @@ Lemma parse_stream_empty : forall NM S E (cb : S -> event NM -> S * bool * optio
 Proof. reflexivity. Qed.
 
 (** ... so the book loaded under --no-database has no recipes ... *)
-Lemma load_db_no_database : forall NM, load_db NM ONone = ([], None).
+Lemma load_db_no_database : forall NM, load_db NM (OData [] NoFault) = ([], None).
 Proof. reflexivity. Qed.
 
 (** ... and resolving it leaves it empty, for every depth limit (a
@@ -390,7 +398,7 @@ Lemma resolve_empty : forall NM n perm, perm [] = [] -> resolve NM n perm [] = S
 Proof. intros NM n perm H. unfold resolve. cbn [keys map]. rewrite H. reflexivity. Qed.
 
 Lemma resolved_db_no_database : forall NM w op,
-  o_resolve (w_or w) [] = [] -> resolved_db NM w op ONone = inr [].
+  o_resolve (w_or w) [] = [] -> resolved_db NM w op (OData [] NoFault) = inr [].
 Proof.
   intros NM w op H. unfold resolved_db. rewrite load_db_no_database, resolve_empty by assumption. reflexivity.
 Qed.
@@ -482,38 +490,142 @@ Proof. intros w. unfold bw_inv, new_writer, bw_new. cbn [bw_err bw_buf bw_sink s
 (** ** the statement for stats *)
 Theorem no_database_stats : forall NM w i,
   i_cmd i = CStats ->
-  (* no book file is opened: the outcome depends on the configuration file and the log only *)
+  (* no book file of the world is opened: the outcome depends on the configuration file and the log only *)
   (forall w', same_but_fs w w' ->
               lookup (config_path w i) (w_fs w') = lookup (config_path w i) (w_fs w) ->
               (forall op, load w (with_no_database i) = inr op -> open_file w' (op_log op) = open_file w (op_log op)) ->
               run NM w' (with_no_database i) = run NM w (with_no_database i)) /\
-  (* and the report, when there is one, says: no file name, 0 records *)
+  (* and the report, when there is one, says: the null device, 0 records *)
   (out_status (run NM w (with_no_database i)) = Ok ->
    exists rest, out_stdout (run NM w (with_no_database i))
-                = b "  Database file:      " ++ [c_lf] ++ b "  Database records:   0" ++ [c_lf] ++ rest).
+                = b "  Database file:      " ++ dev_null ++ [c_lf] ++ b "  Database records:   0" ++ [c_lf] ++ rest).
 Proof.
-  intros NM w i Hc. split.
+  intros NM w i Hc.
+  assert (Hnull : forall op, load w (with_no_database i) = inr op -> op_db op = dev_null).
+  { intros op El. rewrite load_no_database in El. destruct (load w (set_db_source i None true)); [discriminate|].
+    inversion El. reflexivity. }
+  split.
   - intros w' Hs Hcfg Hlog. unfold run. rewrite (load_frame w w' _ Hs) by exact Hcfg.
     destruct (load w (with_no_database i)) as [e|op] eqn:El; [reflexivity|].
     change (i_cmd (with_no_database i)) with (i_cmd i). rewrite Hc.
-    apply run_stats_frame; [assumption|apply Hlog; reflexivity|]. left.
-    rewrite load_no_database in El. destruct (load w (set_db_source i None true)); [discriminate|].
-    inversion El. reflexivity.
+    apply run_stats_frame; [assumption|apply Hlog; reflexivity|].
+    rewrite (Hnull op eq_refl). reflexivity.
   - unfold run. destruct (load w (with_no_database i)) as [e|op] eqn:El; [discriminate|].
     change (i_cmd (with_no_database i)) with (i_cmd i). rewrite Hc.
-    assert (Hdb : op_db op = []).
-    { rewrite load_no_database in El. destruct (load w (set_db_source i None true)); [discriminate|].
-      inversion El. reflexivity. }
-    unfold run_stats. rewrite Hdb.
-    destruct (open_file w (op_log op)) as [[|data f|]|]; try discriminate.
-    (* (a directory as the log always fails: that case is closed by [discriminate] too) *)
-    + destruct (parse_opened NM _ (OData data f) _) as [[[cl fs] ls] [e1|]]; [discriminate|].
-      cbv beta iota zeta.
-      destruct (bw_chunks (new_writer w) _) as [wr1 ec] eqn:Ech.
-      destruct (bw_flush wr1) as [wr2 e2] eqn:Efl.
-      pose proof (bw_chunks_inv _ _ _ _ _ (new_writer_inv w) Ech) as Hi1.
-      destruct (bw_flush_inv _ _ _ _ Hi1 Efl) as (_ & Hok).
-      destruct e2; [discriminate|]. intros _. destruct (Hok eq_refl) as (_ & Hg & _).
-      unfold finish. cbn [out_stdout]. rewrite Hg. cbn [map fst List.concat app].
-      rewrite <- !app_assoc. eexists. reflexivity.
+    pose proof (Hnull op eq_refl) as Hdb.
+    unfold run_stats. rewrite Hdb, open_file_dev_null.
+    destruct (open_file w (op_log op)) as [olog|]; [|discriminate].
+    destruct (parse_opened NM _ olog _) as [[[cl fs] ls] [e1|]]; [discriminate|].
+    change (parse_opened NM _ (OData [] NoFault) 0%nat) with (0%nat, @None cerr).
+    cbv beta iota zeta.
+    destruct (bw_chunks (new_writer w) _) as [wr1 ec] eqn:Ech.
+    destruct (bw_flush wr1) as [wr2 e2] eqn:Efl.
+    pose proof (bw_chunks_inv _ _ _ _ _ (new_writer_inv w) Ech) as Hi1.
+    destruct (bw_flush_inv _ _ _ _ Hi1 Efl) as (_ & Hok).
+    destruct e2; [discriminate|]. intros _. destruct (Hok eq_refl) as (_ & Hg & _).
+    unfold finish. cbn [out_stdout]. rewrite Hg. cbn [map fst List.concat app].
+    rewrite <- !app_assoc. eexists. reflexivity.
+Qed.
+
+(** * fix F24: an EMPTY file name is a file that cannot be opened -- for the log, and for the book
+      (without --no-database, which makes the book the null device, never the empty name) *)
+Definition failed_open : outcome := {| out_stdout := []; out_status := Failed EOpen |}.
+
+Section EmptyName.
+  Context (NM : Num).
+  Variables (w : world) (op : options).
+
+  Lemma finish_new_writer : forall st, finish (new_writer w) st = {| out_stdout := []; out_status := st |}.
+  Proof. reflexivity. Qed.
+
+  Lemma open_all_log_nil : forall p, op_log op = [] -> open_all w [p; op_log op] = None.
+  Proof. intros p H. cbn [open_all]. rewrite H, open_file_nil. destruct (open_file w p); reflexivity. Qed.
+
+  Lemma run_db_log_empty_log : forall mk bt et, op_log op = [] -> run_db_log NM w op mk bt et = failed_open.
+  Proof. intros mk bt et H. unfold run_db_log. rewrite (open_all_log_nil _ H). reflexivity. Qed.
+
+  Lemma run_log_empty_log : forall R, op_log op = [] -> run_log NM w op R = failed_open.
+  Proof. intros R H. unfold run_log. cbn [open_all]. rewrite H, open_file_nil. reflexivity. Qed.
+
+  Lemma run_stats_empty_log : op_log op = [] -> run_stats NM w op = failed_open.
+  Proof. intros H. unfold run_stats. rewrite H, open_file_nil. reflexivity. Qed.
+
+  Lemma run_db_log_empty_book : forall mk bt et, op_db op = [] -> run_db_log NM w op mk bt et = failed_open.
+  Proof. intros mk bt et H. unfold run_db_log. cbn [open_all]. rewrite H, open_file_nil. reflexivity. Qed.
+
+  Lemma run_element_total_empty_book : forall x desc, x <> [] -> op_db op = [] ->
+    run_element_total NM w op x desc = failed_open.
+  Proof.
+    intros x desc Hx H. unfold run_element_total. destruct x as [|c x']; [contradiction|].
+    cbn [open_all]. rewrite H, open_file_nil. reflexivity.
+  Qed.
+
+  Lemma run_csv_db_empty_book : op_db op = [] -> run_csv_db NM w op = failed_open.
+  Proof. intros H. unfold run_csv_db. cbn [open_all]. rewrite H, open_file_nil. reflexivity. Qed.
+
+  Lemma run_csv_db_resolved_empty_book : op_db op = [] -> run_csv_db_resolved NM w op = failed_open.
+  Proof. intros H. unfold run_csv_db_resolved. cbn [open_all]. rewrite H, open_file_nil. reflexivity. Qed.
+
+  (** stats reads the log first: it fails (with the log's error if there is one, else with the open error) *)
+  Lemma run_stats_empty_book : op_db op = [] ->
+    exists e, run_stats NM w op = {| out_stdout := []; out_status := Failed e |}.
+  Proof.
+    intros H. unfold run_stats. rewrite H, open_file_nil.
+    destruct (open_file w (op_log op)) as [olog|]; [|exists EOpen; reflexivity].
+    destruct (parse_opened NM _ olog _) as [[[cl fs] ls] [e1|]]; [exists e1|exists EOpen]; reflexivity.
+  Qed.
+End EmptyName.
+
+(** the program: every command that reads the log fails with the open error when the log's name is empty
+    (summary only after its argument has been accepted: it is stated apart) *)
+Theorem empty_log_name_fails : forall NM w i op,
+  load w i = inr op -> op_log op = [] ->
+  In (i_cmd i) [CReg; CBal; CUnresolved; CTotals; CQuantity; CCsvLog; CPrint; CStats] ->
+  run NM w i = failed_open.
+Proof.
+  intros NM w i op Hl Hn Hc. unfold run. rewrite Hl.
+  destruct Hc as [Hc|[Hc|[Hc|[Hc|[Hc|[Hc|[Hc|[Hc|[]]]]]]]]]; rewrite <- Hc;
+    first [apply run_db_log_empty_log; exact Hn | apply run_log_empty_log; exact Hn | apply run_stats_empty_log; exact Hn].
+Qed.
+
+Theorem empty_log_name_fails_summary : forall NM w i op arg,
+  load w i = inr op -> op_log op = [] -> i_cmd i = CSummary arg ->
+  exists e, run NM w i = {| out_stdout := []; out_status := Failed e |}.
+Proof.
+  intros NM w i op arg Hl Hn Hc. unfold run. rewrite Hl, Hc.
+  destruct (time_from_string w (op_now op) (rc_date (op_rc op)) arg) as [e|t]; [exists e; reflexivity|].
+  exists EOpen. apply run_db_log_empty_log. exact Hn.
+Qed.
+
+(** the same for the book; its name is empty only WITHOUT --no-database (e.g. -d "" or HR_DATABASE="") *)
+Theorem empty_book_name_fails : forall NM w i op,
+  load w i = inr op -> op_db op = [] ->
+  (In (i_cmd i) [CReg; CBal; CUnresolved; CTotals; CCsvDb; CCsvDbResolved]
+   \/ exists x, x <> [] /\ i_cmd i = CElementTotal x) ->
+  run NM w i = failed_open.
+Proof.
+  intros NM w i op Hl Hn Hc. unfold run. rewrite Hl.
+  destruct Hc as [Hc|(x & Hx & Hc)].
+  - destruct Hc as [Hc|[Hc|[Hc|[Hc|[Hc|[Hc|[]]]]]]]; rewrite <- Hc;
+      first [apply run_db_log_empty_book; exact Hn | apply run_csv_db_empty_book; exact Hn
+            | apply run_csv_db_resolved_empty_book; exact Hn].
+  - rewrite Hc. apply run_element_total_empty_book; assumption.
+Qed.
+
+Theorem empty_book_name_fails_stats_summary : forall NM w i op,
+  load w i = inr op -> op_db op = [] ->
+  (i_cmd i = CStats \/ exists arg, i_cmd i = CSummary arg) ->
+  exists e, run NM w i = {| out_stdout := []; out_status := Failed e |}.
+Proof.
+  intros NM w i op Hl Hn [Hc|(arg & Hc)]; unfold run; rewrite Hl, Hc.
+  - apply run_stats_empty_book. exact Hn.
+  - destruct (time_from_string w (op_now op) (rc_date (op_rc op)) arg) as [e|t]; [exists e; reflexivity|].
+    exists EOpen. apply run_db_log_empty_book. exact Hn.
+Qed.
+
+(** --no-database never yields the empty name *)
+Lemma no_database_name : forall w i op, load w (with_no_database i) = inr op -> op_db op = dev_null /\ op_db op <> [].
+Proof.
+  intros w i op El. rewrite load_no_database in El. destruct (load w (set_db_source i None true)); [discriminate|].
+  inversion El. split; [reflexivity|discriminate].
 Qed.
